@@ -244,7 +244,7 @@ func c02(c *ctx) {
 	apis := []string{"MaskFrame", "MaskFrameWith", "MaskFrameInPlace", "MaskFrameInPlaceWith", "UnmaskFrame", "UnmaskFrameInPlace"}
 	for ln := 0; ln <= 40; ln++ {
 		for ai, api := range apis {
-			for rep := 0; rep < 2; rep++ {
+			for rep := 0; rep < 5; rep++ {
 				key := fmt.Sprintf("frame/%s/%d/%d", api, ln, rep)
 				if !vh.Only(key) {
 					continue
@@ -252,10 +252,14 @@ func c02(c *ctx) {
 				var k, inmask [4]byte
 				rng.Read(k[:])
 				rng.Read(inmask[:])
+				if rep >= 2 { // special keys: all zero (a legal mask: the frame is still a masked frame), one bit, all ones
+					k = [][4]byte{{0, 0, 0, 0}, {0, 0, 0, 1}, {0xff, 0xff, 0xff, 0xff}}[rep-2]
+					inmask = k
+				}
 				p := make([]byte, ln)
 				rng.Read(p)
 				caller := append([]byte(nil), p...)
-				f := ws.Frame{Header: ws.Header{Fin: rep == 0, Rsv: byte(ln % 8), OpCode: ws.OpCode(ai), Length: int64(ln)}, Payload: caller}
+				f := ws.Frame{Header: ws.Header{Fin: rep%2 == 0, Rsv: byte(ln % 8), OpCode: ws.OpCode(ai), Length: int64(ln)}, Payload: caller}
 				if api == "UnmaskFrame" || api == "UnmaskFrameInPlace" {
 					f.Header.Masked = true
 					f.Header.Mask = inmask
